@@ -241,7 +241,7 @@ func judgeOut(r *ev.Run, c outCase, res outResult) {
 		r.Violation("C20|outbound|plain-http-nonstrict-refused|"+c.Via, fmt.Sprintf("strict mode off: %s refused a plain-HTTP endpoint: %s", c.Via, res.Err), c)
 	}
 	if c.Strict && c.Scheme == "https" && c.Behaviour == "ok" && c.Host != "origin" && res.TLSHits > 0 {
-		r.Observation(fmt.Sprintf("strict mode on: https endpoints whose host is %s are contacted (the statement names only plain HTTP for outbound requests)", c.Host), c)
+		r.Observation(fmt.Sprintf("strict mode on: https endpoints whose host is %s are contacted (the statement names only plain HTTP for outbound requests)", c.Host), nil)
 	}
 }
 
